@@ -116,9 +116,11 @@ class Extractor:
                 if s is not None:
                     a1 = t['args'][1] if len(t['args']) > 1 else None
                     ty1 = ((a1 or {}).get('place') or {}).get('ty') or (a1 or {}).get('ty') or ''
-                    if a1 is not None and re.sub(r"^&('\w+ )?", '', ty1) == TS:
-                        # appending one whole token stream: the same as interpolating it
-                        events.setdefault(s, []).append((rpo[bi], bi, 'hole', (f.expr_of_operand(a1), TS)))
+                    ty1n = re.sub(r"^&('\w+ )?", '', ty1)
+                    if a1 is not None and ty1n in (TS, 'std::option::Option<%s>' % TS, 'std::vec::Vec<%s>' % TS):
+                        # appending one whole token stream (or an optional one, or each stream of a vector in order): the same
+                        # as interpolating it (`#x`, resp. `#(#x)*`)
+                        events.setdefault(s, []).append((rpo[bi], bi, 'hole', (f.expr_of_operand(a1), ty1n)))
                     else:
                         events.setdefault(s, []).append((rpo[bi], bi, 'opaque', short(gp)))
                 continue
@@ -129,6 +131,13 @@ class Extractor:
                     s = self._stream_arg(f, a_)
                     if s is not None:
                         events.setdefault(s, []).append((rpo[bi], bi, 'opaque', 'stream passed to ' + short(gp)))
+        # a stream that starts as another stream (`let mut output = head; output.extend(..)`): that stream comes first
+        for s in list(events):
+            ds = f.defs().get(s, [])
+            if s not in created and len(ds) == 1 and ds[0][2] == 'rv' and ds[0][3]['k'] == 'Use' and ds[0][3]['op'].get('k') in ('Move', 'Copy') \
+                    and not ds[0][3]['op']['place']['proj'] and f.local_ty(ds[0][3]['op']['place']['local']) == TS and ds[0][0] in rpo:
+                created[s] = ds[0][0]
+                events[s].append((rpo[ds[0][0]] - 0.5, ds[0][0], 'hole', (f.expr_of_operand(ds[0][3]['op']), TS)))
         out = {}
         self.cache[f.id] = out
         self._loops = loops
@@ -247,8 +256,34 @@ class Extractor:
                 computed = n[2].replace('&', '').strip() == TS and k is not None and not any(m.startswith('quote::') for m in (f.term(bi)['span'].get('macros') or []))
                 if k is not None and not computed:
                     n = ('elem', k, n[2])
-            items.append(n)
-        return ('rep', [s_[0] for s_ in srcs], sep, items)
+            # an event that happens only on some trips: the branch conditions inside the loop body
+            # (only for appends written by hand — `stream.extend(..)` in a user loop; quote!'s own repetition loops test their
+            # iterators and separators in every trip, which is not a condition on the element)
+            user_ev = not any(m_.startswith('quote::') for m_ in (f.term(bi)['span'].get('macros') or []))
+            cs_ = [(c_, lab) for b_, c_, lab in _edge_conds(f, bi) if b_ in blocks and not find_next(c_) and
+                   not (c_[0] == 'bin' and c_[1] == 'Gt' and c_[3] == ('int', 0, 'usize'))] if user_ev else []
+            items.append((n, cs_))
+        # two events under the two outcomes of one test are the arms of an alternative; a single conditional event is optional
+        merged = []
+        i_ = 0
+        while i_ < len(items):
+            n, cs_ = items[i_]
+            if not cs_:
+                merged.append(n)
+                i_ += 1
+                continue
+            if i_ + 1 < len(items) and len(cs_) == 1 and len(items[i_ + 1][1]) == 1 and items[i_ + 1][1][0][0] == cs_[0][0] and items[i_ + 1][1][0][1] != cs_[0][1]:
+                n2, cs2 = items[i_ + 1]
+                lab = lambda c: '%s=%s' % (show(c[0])[:80], c[1])
+                arms = sorted([(lab(cs_[0]), [n], cs_), (lab(cs2[0]), [n2], cs2)], key=lambda a_: not a_[0].endswith('=True'))
+                merged.append(('alt', arms))
+                i_ += 2
+                continue
+            from guards import norm_pred
+            ps = [norm_pred(c_, lab_) for c_, lab_ in cs_]
+            merged.append(('opt', ps[0] if len(ps) == 1 else ('and', ps), [n], None))
+            i_ += 1
+        return ('rep', [s_[0] for s_ in srcs], sep, merged)
 
 
 # ---------------------------------------------------------------------------------------------
@@ -514,7 +549,11 @@ class Resolver:
                 out.append(('group', n[1], self.resolve_nodes(f, n[2], depth + 1)))
             elif k == 'hole':
                 ty = n[2]
-                if self._streamlike(ty):
+                if ty.replace('&', '').strip().startswith('std::vec::Vec<proc_macro2::TokenStream'):
+                    # stream.extend(vector of streams): every element in order, no separator — the same as `#(#v)*`
+                    info = self.rep_source(f, n[1], depth + 1)
+                    out.append(('rep', [n[1]], None, [('elem', 0, TS, info)], [info]))
+                elif self._streamlike(ty):
                     out.extend(self.value(f, n[1], depth + 1))
                 else:
                     out.append(('hole', self._peel(n[1]) if False else n[1], ty))
@@ -533,6 +572,8 @@ class Resolver:
                 out.append(('rep', srcs, n[2], items, elems))
             elif k == 'opt':
                 out.append(('opt', n[1], self.resolve_nodes(f, n[2], depth + 1)) + tuple(n[3:]))
+            elif k == 'alt':
+                out.append(('alt', [(a_[0], self.resolve_nodes(f, a_[1], depth + 1)) + tuple(a_[2:]) for a_ in n[1]]))
             else:
                 out.append(n)
         return out
